@@ -364,7 +364,7 @@ fn hostile_archive(honest: std::fs::File, ah: &BlockHeader, rng: &mut SimRng, wo
 		0 | 1 => {
 			// the files reach up to the serving node's head: three flips in four land in the part
 			// the archive header commits to
-			let off = if rng.chance(3, 4) { rng.below((len * 2 / 5).max(1)) } else { rng.below(len) };
+			let off = if rng.chance(3, 4) || pick.to_str() == Some("kernel/pmmr_data.bin") { rng.below((len * 2 / 5).max(1)) } else { rng.below(len) };
 			let mut b = std::fs::read(&path).map_err(|e| e.to_string())?;
 			b[off as usize] ^= 1 << rng.below(8);
 			std::fs::write(&path, &b).map_err(|e| e.to_string())?;
@@ -485,7 +485,7 @@ pub fn run(world: &World, cfg: &RunCfg, seed: u64, tag: &str) -> Outcome {
 		let mut finalized_by_hostile = false;
 		if cfg.corrupt_pct > 0 {
 			let before = receiver.digest().ok();
-			for attempt in 0..8 {
+			for attempt in 0..10 {
 				let work = crate::node::fresh_dir(&format!("{}-hz{}", tag, attempt));
 				// three at random, then one byte flip in each hash file and in two data files
 				let target = match attempt {
@@ -493,7 +493,7 @@ pub fn run(world: &World, cfg: &RunCfg, seed: u64, tag: &str) -> Outcome {
 					4 => Some("rangeproof/pmmr_hash.bin"),
 					5 => Some("kernel/pmmr_hash.bin"),
 					6 => Some("output/pmmr_data.bin"),
-					7 => Some("kernel/pmmr_data.bin"),
+					7 | 8 | 9 => Some("kernel/pmmr_data.bin"),
 					_ => None,
 				};
 				let made = match server.txhashset_read(ah.hash()) {
@@ -848,6 +848,27 @@ pub fn run(world: &World, cfg: &RunCfg, seed: u64, tag: &str) -> Outcome {
 		}
 	}
 	bump(&mut probes, "merkle_proofs_compared");
+	// ... and the kernels themselves: the kernel root binds the hash file, the kernel sums bind the
+	// excesses; features, fee, lock height and signature of what the receiver stores are bound by
+	// nothing but its own signature check. Every kernel of every block up to the archive header must
+	// be stored exactly as the block carried it.
+	let mut kernels_compared = 0u64;
+	for id in world.path_to(archive_id) {
+		for k in world.blocks[id].block.kernels() {
+			match receiver.chain().get_kernel_height(&k.excess, None, None) {
+				Ok(Some((stored, _, _))) if &stored == k => kernels_compared += 1,
+				Ok(Some((stored, h, _))) => {
+					let v = viol("final-kernel-differs", format!("kernel {:?} of block #{} (h{}) is stored at the receiver (found at h{}) as features {:?} with another signature / fee than the block carried: the state is not the one a block-by-block node has", k.excess, id, world.blocks[id].height, h, stored.features));
+					return finish(&mut receiver, Some(v), log, rounds, probes, faults);
+				}
+				other => {
+					let v = viol("final-kernel-missing", format!("kernel {:?} of block #{} (h{}) cannot be read at the receiver: {:?}", k.excess, id, world.blocks[id].height, other.map(|_| ()).map_err(|e| format!("{:?}", e))));
+					return finish(&mut receiver, Some(v), log, rounds, probes, faults);
+				}
+			}
+		}
+	}
+	*probes.entry("kernels_compared_with_blocks".to_string()).or_insert(0) += kernels_compared;
 	// then the remaining blocks, and a restart
 	for id in world.path_to(world.winner()) {
 		if world.blocks[id].height > ah.height {
